@@ -319,16 +319,31 @@ func TestVerifC12Matrix(t *testing.T) {
 		p = &internal.SimplePrinter{}
 		called := false
 		h = referenceServerChecks(http.HandlerFunc(func(http.ResponseWriter, *http.Request) { called = true }), p)
-		rec := httptest.NewRecorder()
-		h(rec, vfSynth(tp, tp, ""))
-		rep.Eval(1)
-		body := rec.Body.String()
-		isErr := rec.Code >= 400 || strings.Contains(body, "invalid_argument") || rec.Header().Get("Grpc-Status") != "" && rec.Header().Get("Grpc-Status") != "0" || strings.Contains(body, "grpc-status: 3")
-		if called {
-			rep.Violation("checks/noname/handler-invoked", "request without a test name reached the handler", map[string]any{"actual": tp})
-		}
-		if !isErr {
-			rep.Violation("checks/noname/not-rejected", fmt.Sprintf("request without a test name not answered with an error: status %d headers %v body %q", rec.Code, rec.Header(), body), map[string]any{"actual": tp})
+		for _, blank := range []string{"absent", "present-but-empty", "two-empty-values"} {
+			called = false
+			p.Messages = nil
+			rec := httptest.NewRecorder()
+			nreq := vfSynth(tp, tp, "")
+			switch blank {
+			case "present-but-empty":
+				nreq.Header["X-Test-Case-Name"] = []string{""}
+			case "two-empty-values":
+				nreq.Header["X-Test-Case-Name"] = []string{"", ""}
+			}
+			h(rec, nreq)
+			rep.Eval(1)
+			rep.Count("noname_requests:"+blank, 1)
+			body := rec.Body.String()
+			isErr := rec.Code >= 400 || strings.Contains(body, "invalid_argument") || rec.Header().Get("Grpc-Status") != "" && rec.Header().Get("Grpc-Status") != "0" || strings.Contains(body, "grpc-status: 3")
+			if called {
+				rep.Violation("checks/noname/handler-invoked", "request without a test name reached the handler", map[string]any{"actual": tp, "test_name_header": blank})
+			}
+			if !isErr {
+				rep.Violation("checks/noname/not-rejected", fmt.Sprintf("request without a test name not answered with an error: status %d headers %v body %q", rec.Code, rec.Header(), body), map[string]any{"actual": tp, "test_name_header": blank})
+			}
+			if len(p.Messages) > 0 {
+				rep.Violation("checks/noname/feedback-without-a-name", fmt.Sprintf("request without a test name produced feedback: %q", p.Messages), map[string]any{"actual": tp, "test_name_header": blank})
+			}
 		}
 	}
 }
